@@ -230,6 +230,16 @@ class TimerMonitor(Monitor):
         v = ep.timer_at
         if v is None or not isinstance(v, (int, float)) or math.isnan(v) or math.isinf(v):
             raise Violation("timer:not-finite:%s" % ("None" if v is None else "nan-or-inf"), "%s.get_timer() returned %r after %s at t=%.4f while the connection is live" % (ep.name, v, cause, t), {"history_tail": self.sim.history[-12:]})
+        if self.sim.zeno:
+            # a caller that fires the timer exactly when asked can never get past this instant: the connection
+            # "waits forever" in virtual time and can never reach its idle / closing deadline
+            name, src, deadline, now = self.sim.zeno[0]
+            del self.sim.zeno[:]
+            self.zeno_seen = getattr(self, "zeno_seen", 0) + 1
+            raise Violation("timer:expired-deadline-rearmed-without-progress:" + src,
+                            "%s: handle_timer(now=%.6f) was called at the requested deadline %.6f (%s); the connection sent nothing, reported no event and asked for the same "
+                            "deadline again, twice in a row at the same instant: a caller firing timers exactly on time never advances" % (name, now, deadline, src),
+                            {"history_tail": self.sim.history[-14:]})
 
 
 class RecoveryLedger(Monitor):
